@@ -384,7 +384,8 @@ def _apply_dirty(case, lvs, node):
         n = node[g]
         for si, slot in enumerate("abc"):
             ch = n.inputs[slot]
-            if not ch.connected and (g, si) not in vl:
+            # the own value of a connected input only matters when no connection holds data (then `fetch` leaves it)
+            if (g, si) not in vl:
                 ch.value = "e"
 
 
@@ -414,6 +415,67 @@ def _run(wf, sched, on_root_run=None):
         finally:
             comp.Composite._on_run = orig_on_run
     return outcome, ran
+
+
+def resume_from_file(case):
+    """phases B-D in the current working directory: build a fresh Workflow, load the file, remove the cause, clear the
+    flags, run again. Everything returned is plain data (this also runs in a fresh interpreter)."""
+    from pyiron_workflow import Workflow
+    from pyiron_workflow.nodes.composite import Composite
+
+    from . import nodes
+    from .execsim import CtlExecutor
+
+    kind = case["kind"]
+    nodes.reset()
+    wf2 = Workflow("w", autoload=None)
+    try:
+        if kind == "recovery":
+            wf2.load(filename=wf2.as_path().joinpath("recovery"))
+        else:
+            wf2.load()
+        lvs2, node2, comp2 = _index(wf2, case)
+    except BaseException as e:  # noqa: BLE001
+        return {"load_err": f"{type(e).__name__}: {e}"[:200]}
+    root_lid = lvs2[-1]["lid"]
+    loaded = _snapshot(lvs2, node2)
+    loaded_root = (bool(wf2.running), bool(wf2.failed))
+
+    def clear(c):
+        c.failed = False
+        c.running = False
+        if isinstance(c, Composite):
+            for ch in c:
+                clear(ch)
+
+    clear(wf2)
+    _apply_dirty(case, lvs2, node2)
+    sched2 = _mk_sched(case.get("choices2", []))
+    exe2 = CtlExecutor(sched2, case.get("mode", "ctl"))
+    for g in case.get("exec2", []):
+        node2[g].executor = exe2
+    wiring2 = {lv["lid"]: _wiring(lv, comp2[lv["lid"]], node2) for lv in lvs2 if lv["lid"] != root_lid}
+
+    def grab2():
+        wiring2[root_lid] = _wiring(lvs2[-1], wf2, node2)
+
+    outcome2, ran2 = _run(wf2, sched2, grab2)
+    res_levels = {}
+    for lv in lvs2:
+        c = comp2[lv["lid"]]
+        res_levels[lv["lid"]] = {
+            "ran": id(c) in ran2,
+            "exec": [_gid_of_label(lv, l) for l in c.provenance_by_execution] if id(c) in ran2 else [],
+            "done": [_gid_of_label(lv, l) for l in c.provenance_by_completion] if id(c) in ran2 else [],
+            "failed": bool(c.failed), "running": bool(c.running),
+        }
+    if root_lid not in wiring2:
+        wiring2[root_lid] = _wiring(lvs2[-1], wf2, node2)
+    return {
+        "loaded": loaded, "loaded_root": loaded_root, "final": _snapshot(lvs2, node2), "levels": res_levels,
+        "wiring2": wiring2, "outcome2": outcome2, "late2": len(sched2.jobs), "calls2": [c[0] for c in nodes.CALL_LOG],
+        "out2": {g: _out_value(node2[g]) for lv in lvs2 for g in lv["own"]}, "trace2": list(sched2.trace),
+    }
 
 
 def run_impl(case):
@@ -474,70 +536,36 @@ def run_impl(case):
     trace1 = list(sched.trace)
     if "live" not in cut:  # the checkpointing node never finished (cannot happen without faults)
         return {"obs": ["no-cut"], "stats": {"no_cut": 1}, "r": {"no_cut": True, "outcome1": outcome1}}
-    # ---- B: load into a freshly built graph of the same class
+    # ---- B, C, D: load into a freshly built graph, remove the cause, clear the flags, run again —
+    # in this process, or (case["fresh"]) in a fresh interpreter that knows nothing but the file
     if kind == "checkpoint":
         shutil.rmtree("w", ignore_errors=True)
         shutil.copytree("ckpt_copy", "w")
-    load_err = None
-    wf2 = Workflow("w", autoload=None)
-    try:
-        if kind == "recovery":
-            wf2.load(filename=wf2.as_path().joinpath("recovery"))
-        else:
-            wf2.load()
-        lvs2, node2, comp2 = _index(wf2, case)
-    except BaseException as e:  # noqa: BLE001
-        load_err = f"{type(e).__name__}: {e}"[:200]
-    if load_err is not None:
-        r = {"load_err": load_err, "files": cut["files"], "kind": kind, "outcome1": outcome1, "probe": probe,
-             "tokens": cut["tokens"], "trace1": trace1, "trace2": [], "wiring1": wiring1, "wiring2": wiring1}
+    if case.get("fresh"):
+        import pickle
+        import subprocess
+        import sys
+
+        code = ("import sys, pickle, logging; logging.disable(logging.CRITICAL); from pwh import c08; "
+                "case = pickle.load(sys.stdin.buffer); sys.stdout.buffer.write(pickle.dumps(c08.resume_from_file(case)))")
+        pr = subprocess.run([sys.executable, "-c", code], input=pickle.dumps(case), capture_output=True, timeout=300)
+        if pr.returncode != 0:
+            raise RuntimeError("fresh interpreter failed: " + pr.stderr.decode()[-500:])
+        b = pickle.loads(pr.stdout)
+    else:
+        b = resume_from_file(case)
+    if "load_err" in b:
         if root_lid not in wiring1:
             wiring1[root_lid] = _wiring(lvs[-1], wf, node)
+        r = {"load_err": b["load_err"], "files": cut["files"], "kind": kind, "outcome1": outcome1, "probe": probe,
+             "tokens": cut["tokens"], "trace1": trace1, "trace2": [], "wiring1": wiring1, "wiring2": wiring1}
         return {"obs": ["files " + " ".join(os.path.splitext(f)[0] for f in cut["files"]), "load-failed"],
                 "stats": {"load_failed": 1, f"kind:{kind}": 1}, "r": r}
-    loaded = _snapshot(lvs2, node2)
-    loaded_root = (bool(wf2.running), bool(wf2.failed))
-    # ---- C: remove the cause, clear the flags
-    nodes.FAIL.clear()
-    nodes.CALL_LOG.clear()
-    nodes.ATTEMPTS.clear()
-
-    def clear(c):
-        c.failed = False
-        c.running = False
-        if isinstance(c, Composite):
-            for ch in c:
-                clear(ch)
-
-    clear(wf2)
-    _apply_dirty(case, lvs2, node2)
-    sched2 = _mk_sched(case.get("choices2", []))
-    exe2 = CtlExecutor(sched2, case.get("mode", "ctl"))
-    for g in case.get("exec2", []):
-        node2[g].executor = exe2
-    wiring2 = {lv["lid"]: _wiring(lv, comp2[lv["lid"]], node2) for lv in lvs2 if lv["lid"] != root_lid}
-
-    def grab2():
-        wiring2[root_lid] = _wiring(lvs2[-1], wf2, node2)
-
-    # ---- D: run again
-    outcome2, ran2 = _run(wf2, sched2, grab2)
-    late2 = len(sched2.jobs)
-    calls2 = [c[0] for c in nodes.CALL_LOG]
-    final = _snapshot(lvs2, node2)
-    res_levels = {}
-    for lv in lvs2:
-        c = comp2[lv["lid"]]
-        res_levels[lv["lid"]] = {
-            "ran": id(c) in ran2,
-            "exec": [_gid_of_label(lv, l) for l in c.provenance_by_execution] if id(c) in ran2 else [],
-            "done": [_gid_of_label(lv, l) for l in c.provenance_by_completion] if id(c) in ran2 else [],
-            "failed": bool(c.failed), "running": bool(c.running),
-        }
-    if root_lid not in wiring2:
-        wiring2[root_lid] = _wiring(lvs2[-1], wf2, node2)
+    loaded, loaded_root, final, res_levels = b["loaded"], b["loaded_root"], b["final"], b["levels"]
+    wiring2, outcome2, late2, calls2, out2, trace2 = (b["wiring2"], b["outcome2"], b["late2"], b["calls2"], b["out2"],
+                                                      b["trace2"])
     # ---- E: an uninterrupted run of a fresh graph (with the same new inputs), elsewhere
-    nodes.CALL_LOG.clear()
+    nodes.reset()
     cwd = os.getcwd()
     os.makedirs("clean", exist_ok=True)
     os.chdir("clean")
@@ -557,9 +585,9 @@ def run_impl(case):
         "kind": kind, "probe": probe, "outcome1": outcome1, "outcome2": outcome2, "late1": late1, "late2": late2,
         "files": cut["files"], "tokens": cut["tokens"], "live": cut["live"], "live_root": cut["root"],
         "loaded": loaded, "loaded_root": loaded_root, "final": final, "levels": res_levels,
-        "wiring1": wiring1, "wiring2": wiring2, "trace1": trace1, "trace2": list(sched2.trace),
+        "wiring1": wiring1, "wiring2": wiring2, "trace1": trace1, "trace2": trace2,
         "calls1": calls1, "calls2": calls2, "clean": clean, "clean_outcome": clean_outcome,
-        "out2": {g: _out_value(node2[g]) for lv in lvs2 for g in lv["own"]},
+        "out2": out2, "fresh": bool(case.get("fresh")),
     }
     done_before = [g for g in leaves_of(case) if loaded[g]["flags"] == "-" and loaded[g]["out"] != "ND"]
     inflight = any(v["flags"] == "R" and not v["comp"] for v in loaded.values())
@@ -568,7 +596,7 @@ def run_impl(case):
         "on_exec": len(case.get("exec", [])), "completed_before_cut": len(done_before),
         "inflight_at_cut": int(inflight), "dirty": int(bool(case.get("dirty"))),
         f"resume:{outcome2.split(':')[0]}": 1, "stale_received_in_file": int(any(v["recv"] for v in loaded.values())),
-        "calls_in_resume": len(calls2),
+        "calls_in_resume": len(calls2), "fresh_interpreter": int(bool(case.get("fresh"))),
     }
     return {"obs": obs_lines(case, r), "r": r, "stats": stats}
 
@@ -843,8 +871,9 @@ def _gen_level(rng, term_ids, alloc, n_leaf, depth, is_macro, p_edge=0.55):
             rng.shuffle(free)
             if len(free) < uses:
                 uses = len(free)
-            if uses == 0:
-                slots[str(terms[0])][0 if key == "A" else 1] = [key]
+            if uses == 0:  # no free slot left: take over one that does not carry the other macro input
+                g, si = next((g, si) for g in terms for si in range(3) if slots[str(g)][si] not in (["A"], ["B"]))
+                slots[str(g)][si] = [key]
             for g, si in free[:uses]:
                 slots[str(g)][si] = [key]
         # the output: a node nobody else needs, preferably
@@ -927,9 +956,12 @@ def gen_case(rng, tier, force_kind=None, nested=None):
 
 
 def gen_cases(rng, tier):
-    n_cases = 230 if tier == "quick" else 2600
+    n_cases = 230 if tier == "quick" else 5000
     for _ in range(n_cases):
         yield gen_case(rng, tier)
+    # the same, with the file loaded and resumed in a fresh interpreter that has seen nothing of the first run
+    for _ in range(6 if tier == "quick" else 60):
+        yield {**gen_case(rng, tier), "fresh": True}
     if tier == "thorough":
         # small scope, every cut: every leaf as the failing node / as the checkpointing node
         for _ in range(60):
